@@ -30,14 +30,15 @@ VARIABLES l,      \* index of the next record
           rej,    \* rejections
           seen,   \* reasons already recorded for the current case
           nok,    \* number of cases accepted
+          eng,    \* specification stream of a solver case that records engine events
           hist    \* results of the earlier cases of the current group (cases that carry the
                   \* same "group" field are consecutive; the last one names the check)
-vars == <<l, cur, S, prevI, posted, got, fin, rej, seen, nok, hist>>
+vars == <<l, cur, S, prevI, posted, got, fin, rej, seen, nok, hist, eng>>
 
 NoCase == [id |-> "none", kind |-> "none"]
 
 Init == /\ l = 1 /\ cur = NoCase /\ S = InitK(0) /\ prevI = InitK(0) /\ posted = <<>>
-        /\ got = <<>> /\ fin = <<>> /\ rej = <<>> /\ seen = {} /\ nok = 0 /\ hist = <<>>
+        /\ got = <<>> /\ fin = <<>> /\ rej = <<>> /\ seen = {} /\ nok = 0 /\ hist = <<>> /\ eng = <<"empty">>
 
 -----------------------------------------------------------------------------
 (* JSON -> specification values *)
@@ -282,11 +283,19 @@ Next ==
      THEN /\ cur' = Rec.c /\ seen' = {} /\ rej' = rej
           /\ S' = InitK(IF "k" \in DOMAIN Rec.c THEN Rec.c.k ELSE 0) /\ prevI' = InitK(0)
           /\ posted' = <<>> /\ got' = <<>> /\ fin' = <<>> /\ nok' = nok /\ hist' = hist
+          /\ eng' = IF "engine" \in DOMAIN Rec.c /\ Rec.c.engine
+                    THEN Solve(Build("b", Rec.c.goal), InitK(0), 400, DefsOf(Rec.c)).s ELSE <<"empty">>
+     ELSE IF Rec.k = "engine"
+     THEN (* engine-level trace validation: the recorded stream skeleton is the specification's,
+             and the specification takes the same step of the loop of Solver::next *)
+          /\ Note(One(IF SkelS(eng) = Rec.skel THEN "" ELSE "engine_shape_mismatch"))
+          /\ eng' = AfterNext(eng, 400, DefsOf(cur))
+          /\ UNCHANGED <<cur, S, prevI, posted, got, fin, nok, hist>>
      ELSE IF Rec.k = "store_op" /\ Flag("fd")
      THEN LET I == StoreOfJson(Rec.s) IN
           /\ Note(FdStoreOpReason(Rec, I))
           /\ posted' = IF Rec.ok THEN Append(posted, Rec.op) ELSE posted
-          /\ prevI' = I /\ UNCHANGED <<cur, S, got, fin, nok, hist>>
+          /\ prevI' = I /\ UNCHANGED <<cur, S, got, fin, nok, hist, eng>>
      ELSE IF Rec.k = "store_op"
      THEN LET S1 == Post(S, Rec.op)
               Snext == IF S1.ok THEN S1 ELSE S
@@ -294,22 +303,22 @@ Next ==
           IN /\ Note(StoreOpReason(Rec, Snext, S1.ok, I))
              /\ S' = Snext /\ prevI' = I
              /\ posted' = IF S1.ok THEN Append(posted, Rec.op) ELSE posted
-             /\ UNCHANGED <<cur, got, fin, nok, hist>>
+             /\ UNCHANGED <<cur, got, fin, nok, hist, eng>>
      ELSE IF Rec.k \in {"answer", "state"}
      THEN /\ Note(IF Rec.k = "answer" THEN AnswerReason(Rec.a) ELSE {})
           /\ got' = Append(got, IF Rec.k = "answer" THEN Rec.a ELSE Rec.s)
-          /\ UNCHANGED <<cur, S, prevI, posted, fin, nok, hist>>
+          /\ UNCHANGED <<cur, S, prevI, posted, fin, nok, hist, eng>>
      ELSE IF Rec.k \in {"final", "probe"}
      THEN LET I == StoreOfJson(Rec.s) IN
           /\ Note(One(BalanceReason(I)))
           /\ fin' = IF Rec.k = "final" THEN Append(fin, I) ELSE fin
-          /\ UNCHANGED <<cur, S, prevI, posted, got, nok, hist>>
+          /\ UNCHANGED <<cur, S, prevI, posted, got, nok, hist, eng>>
      ELSE IF Rec.k = "termop"
      THEN /\ Note(TermReasons(Rec))
-          /\ UNCHANGED <<cur, S, prevI, posted, got, fin, nok, hist>>
+          /\ UNCHANGED <<cur, S, prevI, posted, got, fin, nok, hist, eng>>
      ELSE IF Rec.k = "domop"
      THEN /\ Note(DomReasons(Rec))
-          /\ UNCHANGED <<cur, S, prevI, posted, got, fin, nok, hist>>
+          /\ UNCHANGED <<cur, S, prevI, posted, got, fin, nok, hist, eng>>
      ELSE IF Rec.k = "end"
      THEN LET isProg == cur.kind = "program"
               why == (IF isProg /\ cur.mode = "query" THEN QueryEndReason(Rec)
@@ -320,8 +329,8 @@ Next ==
           IN /\ Note(why)
              /\ nok' = IF seen \cup why = {} THEN nok + 1 ELSE nok
              /\ hist' = IF isProg THEN HistAfter(Rec) ELSE hist
-             /\ UNCHANGED <<cur, S, prevI, posted, got, fin>>
-     ELSE UNCHANGED <<cur, S, prevI, posted, got, fin, rej, seen, nok, hist>>
+             /\ UNCHANGED <<cur, S, prevI, posted, got, fin, eng>>
+     ELSE UNCHANGED <<cur, S, prevI, posted, got, fin, rej, seen, nok, hist, eng>>
 
 Spec == Init /\ [][Next]_vars
 
